@@ -299,7 +299,7 @@ pub fn tool(cmd: &str, args: &[String]) -> i32 {
             let seed: u64 = args.get(0).and_then(|s| s.parse().ok()).unwrap_or(0);
             match crate::samplerz::verif::search_samplerz(seed) {
                 Some(d) => { println!("WITNESS {}", d); 1 }
-                None => { println!("NO-WITNESS (sampler_z at 14 extreme centres x 3 widths x 2 sigma_min; 40000 random (mu, sigma') against Algorithm 15 on the same bytes)"); 0 }
+                None => { println!("NO-WITNESS (sampler_z at 14 extreme centres x 3 widths x 2 sigma_min; 40000 random (mu, sigma') against Algorithm 15 on the same bytes; 800 leaf calls of ffsampling)"); 0 }
             }
         }
         "batchinv-case" => {
@@ -314,6 +314,15 @@ pub fn tool(cmd: &str, args: &[String]) -> i32 {
             match crate::falcon::verif::search_batchinv(seed) {
                 Some(d) => { println!("WITNESS {}", d); 1 }
                 None => { println!("NO-WITNESS (70 vectors of residues with and without zeros, lengths 0..70)"); 0 }
+            }
+        }
+        "leaf-case" => {
+            let f = |i: usize| f64::from_bits(u64::from_str_radix(&args[i], 16).unwrap());
+            let n: usize = args[3].parse().unwrap();
+            let sd: u64 = args[4].parse().unwrap();
+            match crate::ffsampling::verif::leaf_case(f(0), f(1), f(2), n, sd) {
+                Ok(()) => { println!("the leaf case of ffsampling agrees with SamplerZ on this input"); 0 }
+                Err(why) => { println!("REPRODUCED {}", why); 1 }
             }
         }
         "ntt-case" => {
